@@ -1,4 +1,6 @@
 pub mod c01;
+pub mod c11;
+pub mod c15;
 
 use crate::gast;
 use crate::ggen::Case;
@@ -32,4 +34,24 @@ pub fn render_pair(case: &Case, t: &mut Tape) -> (String, String) {
     let cells = layout_cells(t, toks_b.len());
     let fancy = gast::layout(&toks_b, &mut Tape::new(&cells));
     (plain, fancy)
+}
+
+use crate::runner::{Report, Tier};
+
+pub fn run(id: &str, tier: Tier, seed: u64) -> Option<Report> {
+    Some(match id {
+        "C01" => c01::run(tier, seed),
+        "C11" => c11::run(tier, seed),
+        "C15" => c15::run(tier, seed),
+        _ => return None,
+    })
+}
+
+pub fn replay(id: &str, phase: &str, tape: &[u16], seed: u64) -> Option<Report> {
+    Some(match id {
+        "C01" => c01::replay(phase, tape, seed),
+        "C11" => c11::replay(phase, tape, seed),
+        "C15" => c15::replay(phase, tape, seed),
+        _ => return None,
+    })
 }
